@@ -240,11 +240,12 @@ def snapshot_diff(a, b):
 # ------------------------------------------------------------------------------------------------
 # report parsing
 
-_RE_MISSING = re.compile(rb"Missing reference in file (.*), line ([0-9]+), column ([0-9]+)\s*$")
-_RE_UNUSABLE = re.compile(rb"Unusable reference will be ignored in file (.*), line ([0-9]+), column ([0-9]+)\s*$")
-_RE_TOTAL_FILE = re.compile(rb"Total missing references in (.*): ([0-9]+)\s*$")
-_RE_TOTAL_ALL = re.compile(rb"Total missing references \(all files\): ([0-9]+)\s*$")
-_RE_INSERTED = re.compile(rb"Num\. inserted reference\(s\): ([0-9]+)\s*$")
+# tolerant patterns, anchored on the user-visible phrases only: wording added after the numbers (an excerpt, a hint) must not blind the checks
+_RE_MISSING = re.compile(rb"Missing reference in file (.*?), line ([0-9]+), column ([0-9]+)")
+_RE_UNUSABLE = re.compile(rb"Unusable reference will be ignored in file (.*?), line ([0-9]+), column ([0-9]+)")
+_RE_TOTAL_FILE = re.compile(rb"Total missing references in (.*): ([0-9]+)")
+_RE_TOTAL_ALL = re.compile(rb"Total missing references \(all files\): ([0-9]+)")
+_RE_INSERTED = re.compile(rb"Num\. inserted reference\(s\): ([0-9]+)")
 _RE_READFAIL = re.compile(rb"Failed to read file (.*?): ")
 
 
